@@ -16,8 +16,14 @@ import threading
 
 import vlib
 
-TRACE_SPEC = ("BigNat.tla", "RigoProps.tla", "RigoMon.tla", "RigoTrace.tla", "RigoTrace.cfg")
-CONF_SPEC = ("BigNat.tla", "RigoProps.tla", "RigoCore.tla", "RigoConf.tla", "RigoConf.cfg")
+TRACE_SPEC = ("BigNat.tla", "RigoProps.tla", "RigoMon.tla", "RigoTrace.tla", "RigoTrace.cfg", "RigoTraceBig.cfg")
+CONF_SPEC = ("BigNat.tla", "RigoProps.tla", "RigoCore.tla", "RigoConf.tla", "RigoConf.cfg", "RigoConfBig.cfg")
+
+
+def is_big(trace):
+    """Histories recorded in units of 10^12 powers (genesis with power_unit; file name bigunit-*) are evaluated with
+    the stake unit 10^30 (cfg override UnitLimbs <- BigUnitLimbs), everything else being the same."""
+    return os.path.basename(trace).startswith("bigunit")
 _lock = threading.Lock()
 
 
@@ -26,7 +32,7 @@ def conform_file(trace, timeout=3000):
     Differences are diagnostics (CONFORMANCE-DIFF), never verdicts."""
     with _lock:
         files = vlib.spec_files(*CONF_SPEC)
-    res = vlib.run_tlc(files, "RigoConf.tla", "RigoConf.cfg", workers=1, timeout=timeout,
+    res = vlib.run_tlc(files, "RigoConf.tla", "RigoConfBig.cfg" if is_big(trace) else "RigoConf.cfg", workers=1, timeout=timeout,
                        cwd_files={"trace.ndjson": trace}, java_opts=["-Xmx3g"])
     if vlib.tlc_failed(res) or "DIFFS" not in res.prints:
         raise vlib.MachineryError("model conformance of %s did not complete:\n%s" % (trace, res.output[-3000:]))
@@ -37,7 +43,7 @@ def conform_file(trace, timeout=3000):
 def validate_file(trace, timeout=3000):
     with _lock:
         files = vlib.spec_files(*TRACE_SPEC)
-    res = vlib.run_tlc(files, "RigoTrace.tla", "RigoTrace.cfg", workers=1, timeout=timeout,
+    res = vlib.run_tlc(files, "RigoTrace.tla", "RigoTraceBig.cfg" if is_big(trace) else "RigoTrace.cfg", workers=1, timeout=timeout,
                        cwd_files={"trace.ndjson": trace}, java_opts=["-Xmx3g"])
     if vlib.tlc_failed(res) or "VIOLATIONS" not in res.prints:
         raise vlib.MachineryError("trace validation of %s did not complete:\n%s" % (trace, res.output[-3000:]))
@@ -170,18 +176,26 @@ def gen_traces(tier, directed, random_specs, evm=False):
     tmp = vlib.sub("apps")
     traces, sdirs, st = [], [], {"traces": 0, "events": 0, "dead": 0}
     if directed is not None:
-        out = os.path.join(vlib.scratch(), "directed.ndjson")
-        sd = vlib.sub("sc-directed")
-        args = ["directed", "-out", out, "-tmp", tmp, "-seed", vlib.seed(), "-scenarios", sd]
-        if directed:
-            args += ["-names", ",".join(directed)]
-        if evm:
-            args += ["-evm"]
-        r = vlib.driver_json(args)
-        st["traces"] += r["traces"]
-        st["events"] += r["events"]
-        traces.append(out)
-        sdirs.append(sd)
+        # scenarios named big_* run on the big-unit genesis: their traces go to a file of their own (see is_big)
+        groups = [("directed.ndjson", "sc-directed", [d for d in directed if not d.startswith("big_")] if directed else directed)]
+        big = [d for d in (directed or []) if d.startswith("big_")]
+        if big:
+            groups.append(("bigunit-directed.ndjson", "sc-directed-big", big))
+        for fname, sdname, names in groups:
+            if directed and not names:
+                continue
+            out = os.path.join(vlib.scratch(), fname)
+            sd = vlib.sub(sdname)
+            args = ["directed", "-out", out, "-tmp", tmp, "-seed", vlib.seed(), "-scenarios", sd]
+            if names:
+                args += ["-names", ",".join(names)]
+            if evm:
+                args += ["-evm"]
+            r = vlib.driver_json(args)
+            st["traces"] += r["traces"]
+            st["events"] += r["events"]
+            traces.append(out)
+            sdirs.append(sd)
     jobs = []
     for i, rs in enumerate(random_specs):
         out = os.path.join(vlib.scratch(), "random-%d.ndjson" % i)
@@ -208,7 +222,12 @@ def replay_trace(path, evm=False):
     """--replay: a scenario file (re-executed) or a recorded trace (re-validated)."""
     if path.endswith(".ndjson"):
         return path
-    out = os.path.join(vlib.scratch(), "replay.ndjson")
+    big = False
+    try:
+        big = json.load(open(path)).get("genesis", {}).get("power_unit", 0) > 1
+    except Exception:
+        pass
+    out = os.path.join(vlib.scratch(), "bigunit-replay.ndjson" if big else "replay.ndjson")
     args = ["replay", "-scenario", path, "-out", out, "-tmp", vlib.sub("apps")]
     if evm:
         args.append("-evm")
